@@ -178,6 +178,9 @@ func init() {
 			{Pkg: "app", Entry: "H_C04_evict_guard", Witnesses: []string{"C04.evicted", "C04.grew", "C04.master-died"},
 				Quick:    tierCfg{Params: map[string]int{"replicas": 2, "max_w": 1, "faults": 1, "fault_only_ping": 1, "symmetry": 0, "async": 1, "kill_master": 1, "kill_points": 12, "classes": 1 | 1<<6 | 1<<8}},
 				Thorough: tierCfg{Params: map[string]int{"replicas": 2, "max_w": 2, "faults": 1, "fault_only_ping": 1, "symmetry": 0, "async": 1, "kill_master": 1, "kill_points": 20}}},
+			{Pkg: "app", Entry: "H_C04_not_replicating", Witnesses: []string{"C04.not-replicating", "C04.shrank"},
+				Quick:    tierCfg{Params: map[string]int{"replicas": 2, "max_w": 1, "faults": 0, "symmetry": 1, "second_pass": 1, "classes": 1 | 1<<7 | 1<<8 | 1<<9 | 1<<10 | 1<<11}},
+				Thorough: tierCfg{Params: map[string]int{"replicas": 2, "max_w": 2, "faults": 0, "symmetry": 0, "second_pass": 1, "classes": 1 | 1<<7 | 1<<8 | 1<<9 | 1<<10 | 1<<11}}},
 			{Pkg: "app", Entry: "H_C04_set_recovery", Witnesses: []string{"C04.recovery.marked", "C04.recovery.failed"},
 				Quick: tierCfg{Params: map[string]int{"dcs_faults": 1}}, Thorough: tierCfg{Params: map[string]int{"dcs_faults": 2}}},
 		},
